@@ -173,43 +173,45 @@ def _mk_solver(rlimit):
     return s
 
 
+STAGES = (('proof', 3_000_000), ('refute', 6_000_000), ('proof', 40_000_000), ('refute', 40_000_000))
+
+
 def discharge(ob, lemmas, ground=None, want_model=True):
-    """Two passes (DESIGN 3.6): proof with lemmas; refutation quantifier-free."""
+    """Two kinds of pass (DESIGN 3.6): proof with the quantified lemmas; refutation quantifier-free with
+    ground axiom instances.  Staged budgets: valid goals prove quickly, false ones refute quickly, and only
+    the hard rest gets the large (still deterministic, rlimit) budget."""
     t0 = time.time()
-    s = _mk_solver(RLIMIT_PROOF)
-    for l in lemmas:
-        s.add(l)
-    for h in ob.hyps:
-        s.add(h)
-    s.add(z3.Not(ob.goal))
-    r = s.check()
     ob.backend = 'z3'
-    if r == z3.unsat:
-        ob.status = 'proved'
-        ob.time = time.time() - t0
-        return ob
-    if r == z3.sat and not lemmas:
-        ob.status = 'refuted'
-        ob.model = s.model()
-        ob.time = time.time() - t0
-        return ob
-    # refutation pass: no quantified lemmas, ground instances of axioms only
-    s2 = _mk_solver(RLIMIT_REFUTE)
-    for h in ob.hyps:
-        s2.add(h)
-    s2.add(z3.Not(ob.goal))
-    if ground is not None:
-        for g in ground(list(ob.hyps) + [ob.goal]):
-            s2.add(g)
-    r2 = s2.check()
-    if r2 == z3.sat:
-        ob.status = 'refuted'
-        ob.model = s2.model()
-    elif r2 == z3.unsat:
-        ob.status = 'proved'        # proved even without the lemmas
+    notes = []
+    ginst = None
+    for kind, budget in STAGES:
+        s = _mk_solver(budget)
+        if kind == 'proof':
+            for l in lemmas:
+                s.add(l)
+        else:
+            if not lemmas and notes:
+                continue        # no lemmas: the proof pass was already quantifier-free
+            if ground is not None:
+                if ginst is None:
+                    ginst = ground(list(ob.hyps) + [ob.goal])
+                for g in ginst:
+                    s.add(g)
+        for h in ob.hyps:
+            s.add(h)
+        s.add(z3.Not(ob.goal))
+        r = s.check()
+        if r == z3.unsat:
+            ob.status = 'proved'
+            break
+        if r == z3.sat and (kind == 'refute' or not lemmas):
+            ob.status = 'refuted'
+            ob.model = s.model()
+            break
+        notes.append('%s@%d:%s' % (kind, budget, s.reason_unknown() if r == z3.unknown else r))
     else:
         ob.status = 'unknown'
-        ob.note = 'z3: %s / %s' % (s.reason_unknown() if r == z3.unknown else r, s2.reason_unknown())
+    ob.note = ' '.join(notes)
     ob.time = time.time() - t0
     return ob
 
